@@ -31,6 +31,9 @@ func main() {
 		if r.Hang {
 			fmt.Println("MISMATCH: runs hang:", c.JSON())
 		}
+		if r.HostBad != "" {
+			fmt.Println("MISMATCH:", r.HostBad, c.JSON())
+		}
 		if i := r.Diff(); i >= 0 {
 			fmt.Printf("MISMATCH: run %d: got %s want %s case %s\n", i, r.Got[i], r.Want[i], c.JSON())
 		}
